@@ -18,3 +18,8 @@ reg("C05", "exploration", "bounded-exhaustive enumeration of read terms and assi
     "compared bit-for-bit with (a) a per-bit address-map reference and (b) the same assignment compiled into a sync circuit; every read term is "
     "evaluated with ctx.get and compared with the circuit value and the reference.",
     "Trusted: vf/ref/expr.py + vf/ref/stmt.py bit-map semantics. Underlying signals are 3+2 bits wide; memory rows 2x3 bits.")
+reg("C02", "exploration", "bounded-exhaustive enumeration of Module-DSL statement trees x all input valuations (comb) / x register states (sync) against a per-bit last-wins reference; FSMs by exhaustive input/reset sequences",
+    "Every control-flow construct (If/Elif/Else, Switch with int / multi / don't-care / unreachable / empty / after-default cases, zero-width tests), all ordered "
+    "pairs of assignments and all two-level nestings over a pool of assignment forms are built through the Module DSL, simulated, and compared under every valuation "
+    "of the inputs they read with a reference implementing the statement literally; FSMs are driven with every input/reset sequence up to depth 4 (6).",
+    "Trusted: vf/ref/stmt.py + vf/ref/expr.py. Targets 4+3 bits; five inputs of 1-3 bits; sync transition function checked pointwise from 5 register states.")
